@@ -402,6 +402,15 @@ func (env *Zlisp) ImportBaseTypes() {
 	}
 
 	for _, e := range GoStructRegistry.Userdef {
+		// The registry is process-wide, and every record type name ever
+		// used by any interpreter is registered in it, "hash", "field"
+		// and "msgmap" included. Never let such an entry shadow the
+		// builtin function of the same name in a new interpreter.
+		if sym, ok := env.symtable[e.RegisteredName]; ok {
+			if _, isBuiltin := env.builtins[sym]; isBuiltin {
+				continue
+			}
+		}
 		env.AddGlobal(e.RegisteredName, e)
 	}
 }
